@@ -1,5 +1,6 @@
 import SkyllhModel.Proto
 import SkyllhModel.Model.Par
+import SkyllhModel.Model.ParStatus
 import Std.Data.HashSet
 open Proto Par
 
@@ -11,6 +12,11 @@ open Proto Par
                                                            prefix (pids) followed by round-robin
       explore <cur|orig> <ncpu> <n> <faults> <logs>     -> set of outcomes over *all* schedules, `;`-separated
     faults: `-` or `;`-separated  pid:raise:t | pid:exit:t:code | pid:xq:code:flushed | pid:xp:code (partial write)
+            | pid:xs:code (exit after the sentinel) | 0:raise:t (the function raises in the master)
+    `run cur` appends ` tags:<branches of childStep/masterStep taken>`; kinds: cur | orig | swapped
+      ncpuof  <cfg value> <local value>   (none | int:<n> | other)   -> ok:<n> | TypeError | ValueError
+      trials  <cfg value> <local value> <n>  -> Analysis.do_trials: done:<order> | IndexError | TypeError | ValueError
+      status  <shown> <cap> <tasks> <drainAtJoin>   (Model/ParStatus)  -> exits | stuck
 -/
 
 def parseFault (s : String) : Option (Nat × Fault) :=
@@ -19,14 +25,23 @@ def parseFault (s : String) : Option (Nat × Fault) :=
   | [p, "exit", t, c] => some (p.toNat! - 1, .exitAt t.toNat! c.toNat!)
   | [p, "xq", c, b] => some (p.toNat! - 1, .exitQueued c.toNat! (b == "1"))
   | [p, "xp", c] => some (p.toNat! - 1, .exitQueuedPartial c.toNat!)
+  | [p, "xs", c] => some (p.toNat! - 1, .exitAfterSentinel c.toNat!)
   | _ => none
 
 def parseFaults (s : String) : Nat → Option Fault :=
   let fs := if s == "-" then [] else (s.splitOn ";").filterMap parseFault
   fun j => (fs.find? (·.1 == j)).map (·.2)
 
+/-- the master's fault: token `0:raise:t` -/
+def parseMFault (s : String) : Option Nat :=
+  if s == "-" then none else
+  ((s.splitOn ";").filterMap fun tok =>
+    match tok.splitOn ":" with
+    | ["0", "raise", t] => some t.toNat!
+    | _ => none).head?
+
 def cfgOf (ncpu n : Nat) (faults logs : String) : Cfg Nat Nat :=
-  mkCfg (fun _ _ x => x) (List.range n) ncpu (parseFaults faults) (logs == "1")
+  mkCfg (fun _ _ x => x) (List.range n) ncpu (parseFaults faults) (logs == "1") (parseMFault faults)
 
 structure Key (M : Type) where
   m : M
@@ -34,10 +49,11 @@ structure Key (M : Type) where
   rq : List (Nat × List Nat)
   ws : List (Child Nat)
   poison : Option Nat
+  ended : Bool
   deriving BEq, Hashable
 
 def keyOf {M : Type} (n : Nat) (s : State M Nat) : Key M :=
-  ⟨s.m, s.acc0, s.rq, (List.range n).map s.ws, s.poison⟩
+  ⟨s.m, s.acc0, s.rq, (List.range n).map s.ws, s.poison, s.ended⟩
 
 def agents (n : Nat) : List Agent := (List.range (n + 1)).map agentOf
 
@@ -86,6 +102,88 @@ partial def exploreAll {M : Type} [BEq M] [Hashable M] (n : Nat) (stepf : State 
 
 def sortStrs (xs : List String) : List String := (xs.toArray.qsort (· < ·)).toList
 
+def outSwapped : Swapped.MPhase Nat → Option String
+  | .done r => some ("done:" ++ fListD toString r)
+  | .error => some "error"
+  | _ => none
+
+/-- which branch of `childStep` / `masterStep` a step takes (diagnostic: branch coverage of the model runs) -/
+def tagChild (cfg : Cfg Nat Nat) (s : State (MPhase Nat) Nat) (j : Nat) : String :=
+  if j < cfg.nchild then
+    match (s.ws j).phase with
+    | .running t =>
+      match (cfg.chunk (j+1))[t]? with
+      | some _ => if (taskFault (cfg.fault j) t).isSome then "c.taskFault" else "c.task"
+      | none =>
+        if (queuedFault (cfg.fault j) false).isSome then "c.putLost"
+        else if (partialFault (cfg.fault j)).isSome then "c.putPartial" else "c.put"
+    | .queued => if (queuedFault (cfg.fault j) true).isSome then "c.sentinelFault" else "c.sentinel"
+    | .finished => if exitCode (cfg.fault j) == 0 then "c.exit0" else "c.exitNonzero"
+    | .exited _ => "c.idle"
+  else "c.none"
+
+def tagMaster (cfg : Cfg Nat Nat) (s : State (MPhase Nat) Nat) : String :=
+  match s.m with
+  | .own t =>
+    match (cfg.chunk 0)[t]? with
+    | some _ => if cfg.mfault = some t then "m.ownRaise" else "m.ownTask"
+    | none => "m.ownEnd"
+  | .gather =>
+    if filled cfg.nchild s.ws < cfg.nchild then
+      if s.poison = some 0 then "m.blocked"
+      else match s.rq with
+        | _ :: _ => "m.pop"
+        | [] => if s.ended then "m.missing" else if snapG cfg s then "m.resnap" else "m.sleep"
+    else "m.toJoin"
+  | .drain j =>
+    if j < cfg.nchild then
+      match (s.ws j).lq with
+      | .sentinel :: _ => "m.sentinel"
+      | .record :: _ => "m.record"
+      | [] => if s.ended then "m.logsLost" else if isExited (s.ws j).phase then "m.drainSnap" else "m.logsWait"
+    else "m.badPid"
+  | .join =>
+    if allTo cfg.nchild (fun j => isExited (s.ws j).phase) then
+      if allZero cfg s then
+        match collect (filled cfg.nchild s.ws) s.ws with
+        | some _ => "m.done"
+        | none => "m.keyError"
+      else "m.badExit"
+    else "m.joinWait"
+  | .done _ => "m.terminal"
+  | .error => "m.terminal"
+  | .recv => "m.recv"
+
+def tagOf (cfg : Cfg Nat Nat) (s : State (MPhase Nat) Nat) : Agent → String
+  | .master => tagMaster cfg s
+  | .child j => tagChild cfg s j
+
+/-- like `runSched` for the current model, collecting the branch tags -/
+partial def runTags (cfg : Cfg Nat Nat) (pre : List Agent) (s : State (MPhase Nat) Nat) (tags : List String) :
+    String × List String :=
+  match outCur s.m with
+  | some o => (o, tags)
+  | none =>
+    let add (ts : List String) (t : String) := if ts.contains t then ts else t :: ts
+    match pre with
+    | a :: rest => runTags cfg rest (step cfg s a) (add tags (tagOf cfg s a))
+    | [] =>
+      let (s', tags') := (agents cfg.nchild).foldl (fun (acc : State (MPhase Nat) Nat × List String) a =>
+        (step cfg acc.1 a, add acc.2 (tagOf cfg acc.1 a))) (s, tags)
+      if keyOf cfg.nchild s' == keyOf cfg.nchild s then ("stuck", tags') else runTags cfg [] s' tags'
+
+/-- status-queue model: the master stops reading first (`masterEnd`), then round-robin; `exits` | `stuck` -/
+partial def runStatus (c : ParStatus.Cfg) (s : ParStatus.St) (fuel : Nat) : String :=
+  if s.exited then "exits" else if fuel = 0 then "fuel" else
+  let s' := [ParStatus.Ag.worker, .feeder, .master, .masterEnd].foldl (ParStatus.step c) s
+  if s' == s then "stuck" else runStatus c s' (fuel - 1)
+
+def pyVal (s : String) : PyVal :=
+  if s == "none" then .none
+  else match s.splitOn ":" with
+    | ["int", n] => .int n.toInt!
+    | _ => .other
+
 def answer (line : String) : String :=
   match tokens line with
   | ["split", n, ncpu] =>
@@ -96,13 +194,37 @@ def answer (line : String) : String :=
       let cfg := cfgOf ncpu.toNat! n.toNat! faults logs
       let p := (pList pN pre).map agentOf
       if kind == "orig" then runSched cfg.nchild (Orig.step cfg) outOrig p Orig.init
-      else runSched cfg.nchild (step cfg) outCur p init
+      else if kind == "swapped" then runSched cfg.nchild (Swapped.step cfg) outSwapped p Swapped.init
+      else
+        let (o, tags) := runTags cfg p init []
+        o ++ " tags:" ++ String.intercalate "," (sortStrs tags)
   | ["explore", kind, ncpu, n, faults, logs] =>
       let cfg := cfgOf ncpu.toNat! n.toNat! faults logs
       let r := if kind == "orig" then
           exploreAll cfg.nchild (Orig.step cfg) outOrig [Orig.init] {} [] 400000
+        else if kind == "swapped" then
+          exploreAll cfg.nchild (Swapped.step cfg) outSwapped [Swapped.init] {} [] 400000
         else exploreAll cfg.nchild (step cfg) outCur [init] {} [] 400000
       String.intercalate ";" (sortStrs r)
+  | ["status", shown, cap, tasks, drain] =>
+      let c : ParStatus.Cfg := { shown := shown == "1", cap := cap.toNat!, tasks := tasks.toNat!, drainAtJoin := drain == "1" }
+      runStatus c (ParStatus.step c ParStatus.init .masterEnd) (4 * tasks.toNat! + 16)
+  | ["trials", c, l, n] =>
+      -- Analysis.do_trials(n) for the given ncpu settings, fault-free, round-robin
+      match getNcpu (pyVal c) (pyVal l) with
+      | .error e => e
+      | .ok ncpu =>
+        let cfg := cfgOf ncpu n.toNat! "-" "0"
+        match (runTags cfg [] init []).1.splitOn ":" with
+        | ["done", r] =>
+          (match assembleTrials (pList pN r) with
+           | .ok rs => "done:" ++ fListD toString rs
+           | .error e => e)
+        | o => String.intercalate ":" o
+  | ["ncpuof", c, l] =>
+      match getNcpu (pyVal c) (pyVal l) with
+      | .ok n => s!"ok:{n}"
+      | .error e => e
   | _ => "bad-op"
 
 def main : IO Unit := do loop (← IO.getStdin) answer
